@@ -55,6 +55,8 @@ typedef struct coap_ws_state_t {
   uint8_t http_hdr[160]; /**< (Partial) HTTP header */
   size_t data_ofs;      /**< Offset into user provided buffer */
   size_t data_size;     /**< Data size as indicated by WebSocket frame */
+  uint8_t *rx_data;     /**< Payload so far (data_ofs bytes) of a frame that
+                             did not complete within one coap_ws_read() */
   uint8_t key[16];      /**< Random, but agreed key value */
 } coap_ws_state_t;
 
